@@ -488,6 +488,16 @@ def _keys(ex, d, args, kwargs, node):
     return d.keylist()
 
 
+@meth("dict", "get", tb="TB-py")
+def _dget(ex, d, args, kwargs, node):
+    if len(args) != 1 or kwargs:
+        raise Unsupported("dict.get with a default")
+    k = args[0]
+    if not hasattr(k, "t") or k.t.sort() != d.kt.sort():
+        raise Unsupported("dict.get with a key of another type")
+    return VOptional(z3.Not(ex.mem_keys(d.keys, k.t)), d.et.wrap(z3.Select(d.val, k.t)), d.et)
+
+
 @meth("dict", "copy", tb="TB-py")
 def _dcopy(ex, d, args, kwargs, node):
     return VDict(d.keys, d.val, d.et, d.kt)
